@@ -47,7 +47,7 @@ def jobs(tier, seed):
             out.append((str(b + 5), 3, 2, 1))
             out.append((str(b + 6), 2, 3, 2))
     # two-message histories: a message of another constellation with the SAME masks decoded first must not change the labels
-    prs = [('1074', '1104', 1, 1, 1), ('1087', '1117', 1, 1, 2), ('1124', '1094', 2, 1, 1)]
+    prs = [('1074', '1104', 1, 1, 1), ('1087', '1117', 1, 1, 2), ('1124', '1094', 2, 1, 1), ('1075', '1115', 3, 2, 1, 'value'), ('1106', '1086', 2, 2, 2, 'value')]
     if tier != 'quick':
         prs += [('1077', '1107', 2, 2, 1), ('1131', '1081', 1, 2, 2), ('1097', '1127', 2, 2, 2)]
     out += [('pair',) + p for p in prs]
@@ -113,11 +113,21 @@ def run_msm(ident, k, g, option, res, labelmsm_value=None, checks=('msm', 'field
     return d
 
 
-def make_directed(ident, k, g, pname="p", spare=1):
+def make_directed(ident, k, g, pname="p", spare=1, value_seed=None):
     """identity + popcounts of the satellite and signal masks fixed (positions symbolic); cell mask and everything else free.
     The payload is sized for a full cell mask (NCell = k*g)."""
-    ch = structs.chooser(dict(nsat=k, nsig=g, cellmask='ones'))
+    if value_seed is not None:
+        ch = structs.chooser(dict(nsat=k, nsig=g, cellmask='ones', maskmode='value', seed=value_seed))
+    else:
+        ch = structs.chooser(dict(nsat=k, nsig=g, cellmask='ones'))
     d = msgdrv.Directed(ident, ch, spare=spare, pname=pname)
+    if value_seed is not None:
+        # concrete mask positions (for code the predication transform cannot handle): positions as constants
+        for a in d.assume_list:
+            if a[0] == 'eq' and a[1] in ("DF394", "DF395"):
+                w, v = a[3], a[4]
+                d.wit_const = getattr(d, 'wit_const', {})
+                d.wit_const[a[1]] = [z3.BitVecVal(pos, 8) for pos in range(1, w + 1) if v >> (w - pos) & 1]
     # drop the assumption on the cell mask: it stays free (NCell is concretised by the code's own range())
     d.assume_list = [a for a in d.assume_list if not a[1].startswith("DF396")]
     return d
@@ -136,9 +146,10 @@ def emit(eng, d, res, ident, k, g, label, why, checks, model=None):
 def run_pair(spec, res):
     """decode a message of constellation A, then one of constellation B carrying the very same three masks"""
     from pyrtcm.rtcmmessage import RTCMMessage
-    _, ida, idb, k, g, opt = spec
-    da = make_directed(ida, k, g, pname="q")
-    db = make_directed(idb, k, g, pname="p")
+    _, ida, idb, k, g, opt = spec[:6]
+    value = len(spec) > 6 and spec[6] == 'value'
+    da = make_directed(ida, k, g, pname="q", value_seed=11 if value else None)
+    db = make_directed(idb, k, g, pname="p", value_seed=11 if value else None)
     eng = sym.Engine(max_paths=200, conc_limit=3, conc_small=0)
     eng.time_budget = 240
     eng.query_timeout_ms = 60000
@@ -176,7 +187,9 @@ def run_pair(spec, res):
         if lay is None or lay in ('overrun', 'more') or isinstance(lay, Exception):
             res['harness_errors'].append(f"{spec}: oracle layout {lay}")
             continue
-        claims = msgdrv.msm_claims(m, idb, db.wit.get("DF394", []), db.wit.get("DF395", []), db.P, db.nb, lay, 2 if opt == 2 else 1)
+        wc_ = getattr(db, 'wit_const', {})
+        claims = msgdrv.msm_claims(m, idb, db.wit.get("DF394") or wc_.get("DF394", []), db.wit.get("DF395") or wc_.get("DF395", []),
+                                   db.P, db.nb, lay, 2 if opt == 2 else 1)
 
         def cex(name, model, text):
             pair_case(eng, da, db, opt, res, text, model)
